@@ -338,6 +338,18 @@ func c05Check(c *Ctx, cs c05Case) *Failure {
 			}
 			return nil
 		}
+		if strings.HasPrefix(cs.Negative, "clean:") {
+			// a base without content: whether the chain is accepted or rejected, no service keeps `extends`
+			if r.Err != nil {
+				return nil
+			}
+			for name, svc := range r.Project.Services {
+				if svc.Extends != nil {
+					return failf("c05:extends-left-behind:"+cs.Negative, "%s: the loaded service %s still carries extends %+v", cs.Negative, name, *svc.Extends)
+				}
+			}
+			return nil
+		}
 		if r.Err == nil {
 			return failf("c05:invalid-chain-accepted:"+cs.Negative, "extends chain with %s loaded without error", cs.Negative)
 		}
@@ -475,6 +487,11 @@ func c05Negatives() []c05Case {
 		b.WriteString("  web:\n    extends: s0\n")
 		mk(fmt.Sprintf("cycle-%d", n), memFile{Name: "compose.yaml", Content: b.String()})
 	}
+	// bases without content
+	mk("clean:null-base-in-file", memFile{Name: "compose.yaml", Content: "services:\n  web:\n    image: x\n    extends: {file: base.yaml, service: base}\n"}, memFile{Name: "base.yaml", Content: "services:\n  base:\n"})
+	mk("clean:empty-base-in-file", memFile{Name: "compose.yaml", Content: "services:\n  web:\n    image: x\n    extends: {file: base.yaml, service: base}\n"}, memFile{Name: "base.yaml", Content: "services:\n  base: {}\n"})
+	mk("clean:empty-base-same-file", memFile{Name: "compose.yaml", Content: "services:\n  web:\n    image: x\n    extends: base\n  base: {}\n"})
+	mk("clean:null-base-second-level", memFile{Name: "compose.yaml", Content: "services:\n  web:\n    image: x\n    extends: {file: sub/base.yaml, service: base}\n"}, memFile{Name: "sub/base.yaml", Content: "services:\n  base:\n    extends: root\n  root:\n"})
 	// acyclic chains which reuse a service name in another file
 	mk("ok:same-name-across-files", memFile{Name: "compose.yaml", Content: "services:\n  web:\n    extends: {file: shared/base.yaml, service: web}\n"},
 		memFile{Name: "shared/base.yaml", Content: "services:\n  web:\n    extends: common\n  common:\n    image: x\n"})
